@@ -103,3 +103,21 @@ def register(reg):
                         res.append(("alias-redirect-carries-result-and-endpoint", raise_src == "raise RequestAliasRedirect(result, rule.endpoint)", raise_src))
         res.append(("alias-redirect-site-found", found, "if rule.alias and rule.map.redirect_defaults: raise RequestAliasRedirect(...)"))
         return res
+    _register_defaults_rule(reg)
+
+
+def _register_defaults_rule(reg):
+    """Rule.provides_defaults_for: the defaults redirect may only be taken between rules of the same endpoint that
+    take the same arguments -- otherwise following the redirect would change what is requested"""
+    RuleD = reg.model("RuleD", cls="werkzeug/routing/rules.py:Rule",
+                      fields={"build_only": "bool", "defaults": "Optional[Dict[str, str]]", "endpoint": "opaque:any",
+                              "arguments": "Set[str]", "_trace": "opaque:any"})
+    reg.contract(
+        "werkzeug/routing/rules.py:Rule.provides_defaults_for", prop="C12", self_model=RuleD, params={"rule": RuleD},
+        returns="bool", modifies=[],
+        ensures=[
+            "implies(result, self.endpoint == rule.endpoint and self.arguments == rule.arguments)",
+            "implies(result, not self.build_only and self.defaults is not None)",
+        ],
+        raises={},
+    )
